@@ -35,6 +35,14 @@ type v3Ev struct {
 	Err  string   `json:"err"`
 	Rs   []string `json:"rs"`
 	Note string   `json:"note"`
+	// creation rounds (line "Cre"): offsets handed to the reader, HighWatermark()
+	// sampled after each of them, how the drain ended, the HW before the race,
+	// the value the concurrent SetHighWatermark was given
+	Offs []int64 `json:"offs"`
+	Hws  []int64 `json:"hws"`
+	End  string  `json:"end"`
+	H0   int64   `json:"h0"`
+	H1   int64   `json:"h1"`
 }
 
 type v3Stress struct {
@@ -118,6 +126,10 @@ func TestVerifReaderStress(t *testing.T) {
 	VerifGateHook = v3StressHook
 	defer func() { VerifGateHook = nil }()
 	for _, b := range sf.Behaviours {
+		if vStrDef(b.Cfg, "kind", "") == "create" {
+			v3CreateRound(t, tw, b)
+			continue
+		}
 		v3StressRound(t, tw, b)
 	}
 }
@@ -367,10 +379,226 @@ func v3StressRound(t *testing.T, tw *vTraceWriter, b vBehaviour) {
 	os.RemoveAll(dir)
 	s.mu.Lock()
 	for _, ev := range s.evs {
-		if ev.Rs == nil {
-			ev.Rs = []string{}
-		}
-		tw.Emit(ev)
+		v3EmitEv(tw, ev)
 	}
 	s.mu.Unlock()
+}
+
+func v3EmitEv(tw *vTraceWriter, ev v3Ev) {
+	if ev.Rs == nil {
+		ev.Rs = []string{}
+	}
+	if ev.Offs == nil {
+		ev.Offs = []int64{}
+	}
+	if ev.Hws == nil {
+		ev.Hws = []int64{}
+	}
+	tw.Emit(ev)
+}
+
+// ---------------------------------------------------------------------------
+// Creation rounds: committed readers are CREATED while the HW moves (and while
+// the log grows / rolls).  newReaderCommitted is not one critical section (HW
+// load | segment snapshot, decision "wait" vs "positioned", construction -
+// Reader.tla: DoNewReader | RNew); no gate sits between its parts, so the
+// interleavings come from real schedules: in every iteration four goroutines
+// are released by a spin barrier at the same instant -
+//   two creators   NewReader(HW+d, committed), d in {-1, 0, +1, +2}
+//   the committer  SetHighWatermark(HW+1 | HW+2)
+//   the appender   Append of one message (every other iteration)
+// each after a busy-wait of 0..~150 ns chosen per iteration so that the relative
+// timing sweeps over windows of a few instructions.  When all four calls have
+// returned the driver goroutine - alone now - advances the HW once more and
+// drains each new reader with a context that is already cancelled (a reader that
+// would block returns instead).  One line per creation: requested offset, the
+// offsets handed out, HighWatermark() after each of them, how the drain ended.
+// Nothing is inferred from timing; TLC judges the line (Trace_ReaderEv: Cre).
+
+type v3CTask struct {
+	kind   int // 0 create, 1 commit, 2 append, 3 nothing
+	arg    int64
+	jitter int
+	rdr    *Reader
+	err    error
+	panicS string
+}
+
+type v3Create struct {
+	round int64 // atomic: number of the iteration released
+	done  int64 // atomic: calls of the iteration that have returned
+	stop  int32
+	tasks [4]v3CTask
+	l     *commitLog
+	next  int64 // payload counter of the appends (driver and appender never run at the same time on it: atomic)
+}
+
+func (c *v3Create) appendOne() error {
+	i := atomic.AddInt64(&c.next, 1) - 1
+	m := &Message{MagicByte: 2, Value: []byte(fmt.Sprintf("m%07d", i%10000000)), Timestamp: i + 1, LeaderEpoch: 1, Offset: -1}
+	_, err := c.l.Append([]*Message{m})
+	return err
+}
+
+func (c *v3Create) worker(w int, wg *sync.WaitGroup) {
+	defer wg.Done()
+	for n := int64(1); ; n++ {
+		for spins := 0; atomic.LoadInt64(&c.round) < n; spins++ {
+			if atomic.LoadInt32(&c.stop) == 1 {
+				return
+			}
+			if spins > 20000 {
+				runtime.Gosched()
+			}
+		}
+		tk := &c.tasks[w]
+		for j := 0; j < tk.jitter; j++ {
+			atomic.LoadInt32(&c.stop)
+		}
+		func() {
+			defer func() {
+				if x := recover(); x != nil {
+					tk.panicS = fmt.Sprintf("panic:%v", x)
+				}
+			}()
+			switch tk.kind {
+			case 0:
+				tk.rdr, tk.err = c.l.NewReader(tk.arg, false)
+			case 1:
+				c.l.SetHighWatermark(tk.arg)
+			case 2:
+				tk.err = c.appendOne()
+			}
+		}()
+		atomic.AddInt64(&c.done, 1)
+	}
+}
+
+func v3CreateRound(t *testing.T, tw *vTraceWriter, b vBehaviour) {
+	var (
+		seed    = vInt(b.Cfg, "seed")
+		capRecs = vInt(b.Cfg, "cap")
+		nIter   = vInt(b.Cfg, "iterations")
+		dir     = vTempDir(t)
+		rng     = rand.New(rand.NewSource(seed))
+	)
+	if old := runtime.GOMAXPROCS(0); old < 5 {
+		runtime.GOMAXPROCS(5)
+		defer runtime.GOMAXPROCS(old)
+	}
+	probe := &Message{MagicByte: 2, Value: []byte("m0000000"), Timestamp: 1, LeaderEpoch: 1, Offset: -1}
+	ms, _, _ := newMessageSetFromProto(0, 0, []*Message{probe}, false)
+	cl, err := New(vOpts(dir, capRecs*int64(len(ms)), false))
+	if err != nil {
+		t.Fatalf("open: %v", err)
+	}
+	l := cl.(*commitLog)
+	c := &v3Create{l: l}
+	s := &v3Stress{l: l, id: b.ID, rng: rng}
+	s.emit(v3Ev{A: "Open", Off: -1, S: -1})
+	var wg sync.WaitGroup
+	for w := 0; w < 4; w++ {
+		wg.Add(1)
+		go c.worker(w, &wg)
+	}
+	note := ""
+	headers := make([]byte, msgSetHeaderLen)
+	nCre := 0
+	for it := int64(1); it <= nIter && note == ""; it++ {
+		h := l.HighWatermark()
+		// the log stays well ahead of everything this iteration commits
+		for l.NewestOffset() < h+8 {
+			if err := c.appendOne(); err != nil {
+				note = "append failed: " + err.Error()
+				break
+			}
+		}
+		if note != "" {
+			break
+		}
+		step := int64(1)
+		if rng.Intn(10) < 3 {
+			step = 2
+		}
+		for w := 0; w < 2; w++ {
+			d := []int64{1, 1, 1, 1, 2, 2, 0, 0, -1, -1}[rng.Intn(10)]
+			start := h + d
+			if start < 0 {
+				start = 0
+			}
+			c.tasks[w] = v3CTask{kind: 0, arg: start, jitter: rng.Intn(120)}
+		}
+		c.tasks[2] = v3CTask{kind: 1, arg: h + step, jitter: rng.Intn(120)}
+		c.tasks[3] = v3CTask{kind: 3}
+		if it%2 == 0 {
+			c.tasks[3] = v3CTask{kind: 2, jitter: rng.Intn(120)}
+		}
+		atomic.StoreInt64(&c.done, 0)
+		atomic.StoreInt64(&c.round, it) // releases the four goroutines
+		deadline := time.Now().Add(30 * time.Second)
+		for spins := 0; atomic.LoadInt64(&c.done) < 4; spins++ {
+			if spins > 200 {
+				runtime.Gosched()
+			}
+			if spins&0xfff == 0xfff && time.Now().After(deadline) {
+				note = "timeout: a call of a creation iteration did not return"
+				break
+			}
+		}
+		if note != "" {
+			break
+		}
+		if c.tasks[3].err != nil || c.tasks[3].panicS != "" || c.tasks[2].panicS != "" {
+			note = fmt.Sprintf("append/commit of a creation iteration failed: %v %s %s", c.tasks[3].err, c.tasks[3].panicS, c.tasks[2].panicS)
+			break
+		}
+		// alone again: one more advance, then every new reader is drained (both completed
+		// SetHighWatermark calls are judged on the Cre lines: h1 + 1 <= hw)
+		l.SetHighWatermark(h + step + 1)
+		for w := 0; w < 2; w++ {
+			tk := &c.tasks[w]
+			nCre++
+			ev := v3Ev{A: "Cre", R: fmt.Sprintf("c%d", nCre), S: tk.arg, Off: -1, H0: h, H1: h + step}
+			if tk.panicS != "" || tk.err != nil {
+				ev.Err = tk.panicS
+				if ev.Err == "" {
+					ev.Err = v3ErrClass(tk.err)
+				}
+				s.emit(ev)
+				continue
+			}
+			ctx := vDoneCtx()
+			for k := 0; ; k++ {
+				off, errc := func() (off int64, errc string) {
+					defer func() {
+						if x := recover(); x != nil {
+							off, errc = -1, fmt.Sprintf("panic:%v", x)
+						}
+					}()
+					_, o, _, _, err := tk.rdr.ReadMessage(ctx, headers)
+					return o, v3ErrClass(err)
+				}()
+				if errc == "" && k >= 64 {
+					errc = "runaway"
+				}
+				if errc != "" {
+					ev.End = errc // "cancelled" = the reader would block now
+					break
+				}
+				ev.Offs = append(ev.Offs, off)
+				ev.Hws = append(ev.Hws, l.HighWatermark())
+			}
+			s.emit(ev)
+		}
+	}
+	atomic.StoreInt32(&c.stop, 1)
+	if note == "" {
+		wg.Wait()
+	}
+	s.emit(v3Ev{A: "Quiet", Off: l.NewestOffset(), S: -1, Note: note})
+	l.Close()
+	os.RemoveAll(dir)
+	for _, ev := range s.evs {
+		v3EmitEv(tw, ev)
+	}
 }
